@@ -126,3 +126,54 @@ func HarnessC02Truthiness() {
 		vAssert(out == wantF, "falsy-value-selects-the-false-behaviour")
 	}
 }
+
+// HarnessC02Empty: the same construct with any subset of its branch bodies (and of the @else body) left empty;
+// conditions are data booleans.
+func HarnessC02Empty() {
+	n := vChoice("elseifs", 3)
+	hasElse := vChoice("else", 2) == 1
+	data := map[string]any{}
+	bodies := []string{"<B0>", "<B1>", "<B2>"}
+	elseBody := "<E>"
+	for i := 0; i <= n; i++ {
+		if vChoice("empty-body", 2) == 1 {
+			bodies[i] = ""
+		}
+	}
+	if hasElse && vChoice("empty-else", 2) == 1 {
+		elseBody = ""
+	}
+	construct, want, chosen := "", "", false
+	for i := 0; i <= n; i++ {
+		c := vBool(c02Names[i])
+		data[c02Names[i]] = c
+		if i == 0 {
+			construct += "@if(" + c02Names[i] + ")" + bodies[i]
+		} else {
+			construct += "@elseif(" + c02Names[i] + ")" + bodies[i]
+		}
+		if c && !chosen {
+			want, chosen = bodies[i], true
+		}
+	}
+	if hasElse {
+		construct += "@else" + elseBody
+		if !chosen {
+			want = elseBody
+		}
+	}
+	construct += "@end"
+	var src, exp string
+	switch vChoice("context", 3) {
+	case 0:
+		src, exp = "P:"+construct+":S", "P:"+want+":S"
+	case 1:
+		src, exp = "[@each(v in [1, 2])<"+construct+">@end]", "[<"+want+"><"+want+">]"
+	default:
+		src, exp = construct, want
+	}
+	out, err := EvaluateString(src, data)
+	vCover("rendered")
+	vAssert(err == nil, "construct-with-empty-bodies-renders-without-error")
+	vAssert(out == exp, "exactly-the-first-truthy-branch-is-rendered")
+}
